@@ -612,3 +612,103 @@ def c15(prop, tier, seed, work):
 
 
 CHECKS["C15"] = c15
+
+
+# --------------------------------------------------------------------------- C19: configuration, rate limit, termination
+
+def c19(prop, tier, seed, work):
+    t0 = time.time()
+    vh = vlib.build_harness(work)
+    quick = tier == "quick"
+    # (1) the table of documented effects: every combination is a state, ExactEffect checked on the table
+    cfg = "SPECIFICATION Spec\nINVARIANT TableExact\nINVARIANT Emit\nCHECK_DEADLOCK FALSE\n"
+    res = vlib.tlc(work, "cf-enum", "MCConfig", cfg, workers=4, timeout=600)
+    vlib.tlc_ok(res, "MCConfig enumeration")
+    combos = vlib.tlc_prints(res["out"], "COMBO")
+    if len(combos) < 100:
+        raise Inconclusive("MCConfig emitted only %d combinations" % len(combos))
+    # (2) the rate limiter: exhaustive model check, then generated sequences replayed in real time
+    rlcfg = """SPECIFICATION Spec
+CONSTANTS
+  Addrs = {a1, a2}
+  Limit = 2
+  Sec = 3
+  MaxT = %d
+  MaxReq = %d
+INVARIANT RateBound
+INVARIANT Independent
+CHECK_DEADLOCK FALSE
+""" % ((7, 6) if quick else (8, 7))
+    rl = vlib.tlc(work, "rl-mc", "RateLimit", rlcfg, workers=vlib.WORKERS, timeout=900)
+    vlib.tlc_ok(rl, "RateLimit exhaustive")
+    behaviours = []
+    for gi, (limit, naddr) in enumerate(((1, 2), (2, 3), (3, 2))):
+        gcfg = """SPECIFICATION GSpec
+CONSTANTS
+  Addrs = %s
+  Limit = %d
+  Sec = 10
+  MaxT = 28
+  MaxReq = 14
+INVARIANT Emit
+CHECK_DEADLOCK FALSE
+""" % (mset("a", naddr), limit)
+        g = vlib.tlc(work, "rl-gen%d" % gi, "MCRateLimit", gcfg, simulate="num=%d" % (8 if quick else 60), depth=60, seed=seed + gi, workers=1, timeout=300)
+        bs = vlib.tlc_prints(g["out"], "RL")
+        if "Error:" in g["out"] or not bs:
+            raise Inconclusive("MCRateLimit generator failed:\n" + g["out"][-2000:])
+        behaviours += bs
+    cf = work.path("combos.ndjson")
+    vlib.write_programs(cf, combos)
+    rf = work.path("rl-beh.ndjson")
+    vlib.write_programs(rf, behaviours)
+    # (3) the binary, built from the current tree
+    binp = work.path("olareg-bin")
+    rc, out, dt = vlib.run(["go", "build", "-o", binp, "./cmd/olareg"], cwd=vlib.REPO, env=vlib.GOENV, timeout=600, check=False)
+    if rc != 0:
+        raise Inconclusive("cmd/olareg does not build:\n" + out[-2000:])
+    tf, rlo = work.path("cf-trace.ndjson"), work.path("rl-trace.ndjson")
+    rc, out, dt = vlib.run([vh, "config", "-combos", cf, "-rl", rf, "-o", tf, "-rlo", rlo, "-seed", str(seed), "-bin", binp,
+                            "-nbin", str(10 if quick else 120), "-sample", str(4 if quick else 1)], timeout=3000,
+                           env=dict(os.environ, TMPDIR=work.sub("roots")))
+    vcfg = "SPECIFICATION TraceSpec\nINVARIANT Report\nPOSTCONDITION Consumed\nCHECK_DEADLOCK FALSE\n"
+    verdicts = []
+    for name, module, f in (("cf-val", "TraceConfig", tf), ("rl-val", "TraceRateLimit", rlo)):
+        r2 = vlib.tlc(work, name, module, vcfg, files={f: "trace.ndjson"}, workers=1, timeout=1200, java_opts="-Xss64m")
+        vs = vlib.tlc_prints(r2["out"], "VERDICT")
+        if "Model checking completed. No error has been found." not in r2["out"] or len(vs) != 1:
+            raise Inconclusive("%s did not run to the end:\n%s" % (module, r2["out"][-3000:]))
+        verdicts.append(vs[0])
+    vc, vr = verdicts
+    if vr["stats"]["limited"] == 0:
+        raise Inconclusive("the rate limit was never reached in the replayed sequences (vacuous)")
+    violations = []
+    for k, f in enumerate(vc["fails"][:20]):
+        violations.append((vlib.save_replay(prop, "cfg-%d" % k, {"property": prop, "kind": "config", "failure": f, "seed": seed}), f))
+    for k, f in enumerate(vr["fails"][:20]):
+        violations.append((vlib.save_replay(prop, "rl-%d" % k, {"property": prop, "kind": "ratelimit", "failure": f, "seed": seed}), f))
+    cov = {"states": res["distinct"] + rl["distinct"], "transitions": res["states"] + rl["states"],
+           "traces_validated_against_impl": vc["stats"]["events"] + len(behaviours),
+           "trace_events": vc["stats"]["events"] + vr["stats"]["events"], "rate_limit_events_checked": vr["stats"]["checked"],
+           "rate_limited_answers": vr["stats"]["limited"],
+           "evaluations": vc["stats"]["events"] + vr["stats"]["events"], "distinct_nontrivial": len(combos) // (4 if quick else 1) + len(behaviours),
+           "rule": "every combination of push/delete/blob-delete/referrer/read-only (true, false, unset) x store type x warnings x rate limit is one TLC state (%d); "
+                   "library level: every %s combination x 10 request classes on a fresh copy of a populated directory; binary level: olareg serve with the flags over loopback TCP, "
+                   "SIGTERM, exit status, storage re-opened; defaults: unset and every explicit boolean mask through SetDefaults; rate limiter: generated (address, tick) "
+                   "sequences replayed in real time (1 tick = 100 ms), three ways of conveying the address" % (len(combos), "4th" if quick else ""),
+           "samples": combos[:2] + behaviours[:1], "exhaustive": not quick,
+           "model_checking": ["MCConfig: %d combinations, ExactEffect on the table" % res["distinct"],
+                              "RateLimit: %d distinct states, RateBound and Independent" % rl["distinct"]],
+           "failures": [f for _, f in violations][:10]}
+    vlib.write_evidence(prop, tier, seed, "model_checking", cov, ASSUME_COMMON[:2] + [
+        "the rate limiter is replayed against wall clock time; requests within 40 ms of a window boundary are not judged",
+        "binary level combinations are a seeded sample in the quick tier"], time.time() - t0, len(violations))
+    if violations:
+        for path, f in violations[:5]:
+            print("VIOLATION property=%s replay=%s" % (prop, path))
+            log("  " + json.dumps(f)[:300])
+        return 1
+    return 0
+
+
+CHECKS["C19"] = c19
